@@ -639,6 +639,60 @@ def gen_vi_replace(rng):
     return ks
 
 
+def gen_vi_alt(rng, n, cands=False):
+    """vi with NO key-sequence timeout: ESC is a prefix, so Alt-<char> in insert mode runs a vi command (and leaves insert
+    mode) -- also inside an incremental search or a completion. No lone Esc is generated (it would fuse with the next key)."""
+    ks, insert = [], True
+    search_keys = ["o", "n", "e", "t", "a", "C-r", "C-s", "Backspace", "M-X", "M-x", "M-l", "M-u", "w"]
+    while len(ks) < n:
+        r = rng.random()
+        if insert:
+            if r < 0.40:
+                ks.append(rng.choice(["a", "b", "o", "n", " ", "é", "1", ","]))
+            elif r < 0.50:
+                ks.append(rng.choice(["Backspace", "C-h", "C-w", "C-u", "Left", "Right"]))
+            elif r < 0.68:
+                ks.append("C-r")
+                ks += [rng.choice(search_keys) for _ in range(rng.randint(0, 5))]
+                ks.append(rng.choice(["C-g", "M-X", "M-u", "Left", "C-g", "M-x"]))
+                insert = False if ks[-1].startswith("M-") else insert
+                # an Alt key inside the search switched to command mode: C-g there aborts, C-r there searches again
+                if any(k.startswith("M-") for k in ks[-7:]):
+                    insert = False
+            elif r < 0.76 and cands:
+                ks += ["Tab"] * rng.randint(1, 3) + [rng.choice(["M-u", "M-x", "C-g", "a", "M-X"])]
+                if ks[-1].startswith("M-"):
+                    insert = False
+            else:
+                c = rng.choice("xXhlbw0$.pPuiaAIu")
+                ks.append("M-" + c)
+                insert = c in "iaAI"
+        else:
+            if r < 0.30:
+                ks.append(rng.choice(["u", "u", "2", "."]))
+                if ks[-1] == "2":
+                    ks.append("u")
+            elif r < 0.50:
+                ks.append(rng.choice(["h", "l", "0", "$", "w", "b"]))
+            elif r < 0.62:
+                ks.append(rng.choice(["x", "X", "D", "p", "P"]))
+            elif r < 0.82:
+                ks.append(rng.choice(["i", "a", "A", "I"]))
+                insert = True
+            elif r < 0.92:
+                ks.append("C-r")              # sets insert mode, then searches
+                insert = True
+                ks += [rng.choice(search_keys) for _ in range(rng.randint(0, 4))]
+                if any(k.startswith("M-") for k in ks[-4:]):
+                    insert = False
+                ks.append(rng.choice(["C-g", "Left", "M-X"]))
+                if ks[-1].startswith("M-"):
+                    insert = False
+            else:
+                ks.append("C-g")
+    return ks
+
+
 def c05_cases(tier, seed):
     """undo-biased scripts: C-_ / C-x C-u / vi u at every kind of position, with counts; searches and
     completions started and aborted or accepted in between"""
@@ -648,6 +702,14 @@ def c05_cases(tier, seed):
     for _ in range(n // 8):
         t = "".join(rng.choice(["a", "b", "é", "日", "c", " ", "ü"]) for _ in range(rng.randint(3, 9)))
         cases.append(Case(gen_vi_replace(rng), mode="vi", initial=(t, ""), timeout=0, prompt="> "))
+    for _ in range(n // 5):
+        hist = [rng.choice(["one", "a", "an", "note", "b", "é1", "o"]) for _ in range(rng.choice([1, 2, 3]))]
+        cands = rng.sample(["one", "on", "a", "ab", "b", "note"], rng.choice([0, 2, 3])) or None
+        keys = gen_vi_alt(rng, rng.randint(6, 28), bool(cands))
+        keys += [rng.choice(["M-u", "M-u", "M-x", "Left"])] + ["u"] * rng.randint(0, 4) if rng.random() < 0.7 else []
+        keys.append("Enter")
+        cases.append(Case(keys, mode="vi", history=hist, cands=cands, initial=mk_initial(rng, 0.3, ["a", "b", "o", " "]),
+                          completion=rng.choice(["circular", "list"]), timeout="none", prompt="> "))
     for _ in range(n):
         mode = rng.choice(["emacs", "emacs", "vi"])
         hist = [rng.choice(HIST_POOL) for _ in range(rng.choice([0, 1, 2, 3]))]
